@@ -119,6 +119,14 @@ class ModelFuture:
         return self.value
 
 
+    def __vm_await__(self, vm):
+        return self.result()               # the models only await futures that are already complete
+
+    def __await__(self):
+        return self.result()
+        yield
+
+
 class ModelEvent:
     def __init__(self):
         self.flag = False
